@@ -45,10 +45,12 @@ RULE = ('case = one generated pipeline of 1-5 stages ($match $sort $skip $limit 
 ASSUMPTIONS = [
     'outside F (model answers "unmodelled", counted, not judged): $sample / $out / $graphLookup '
     '(C16), pipelines in which an in-place write of a handler could be observed through a second '
-    'reference to the same object — a dotted $unwind after a stage that can store one '
-    'sub-document twice, $lookup inside a $facet branch (MongoModel.Pipe.aliasRisk; the '
-    'separation property itself is C16; $addFields / $set copy what they write into since fix '
-    'eb8f57c) —, a $project that returns None followed by further stages, sort / group keys that '
+    'reference to the same object — a dotted $unwind (path or includeArrayIndex) after a stage '
+    'that can store one sub-document twice (MongoModel.Pipe.aliasRisk, its only clause: every '
+    '$facet branch works on its own deep copy of the input, $lookup writes a top-level key of a '
+    'document nobody else holds and $addFields / $set copy what they write into since fix '
+    'eb8f57c, so none of them adds a risk; the separation property itself is C16) —, a $project '
+    'that returns None followed by further stages, sort / group keys that '
     'are arrays or nested documents (bson_compare is not a strict weak order there), comparisons '
     'of library-generated ObjectIds, inexact floats ($avg of thirds), stage operands of an '
     'unexpected Python type where the outcome is an accident of `in` / iteration',
